@@ -153,7 +153,10 @@ impl<'t, 'i> BlockParser<'t, 'i> {
                 }
                 T![escaped] => {
                     t.append_str(&self.input[start..end], start);
-                    debug_assert_eq!(token.len(), 2, "unexpected escaped token length");
+                    debug_assert!(
+                        self.input[token.span.range()].starts_with('\\'),
+                        "escaped token without backslash"
+                    );
                     start = token.span.start() + 1; // skip "\"
                     end = token.span.end()
                 }
